@@ -770,12 +770,6 @@ func (w *Writer) OpenStream(ref Reference, dict Dict, filters ...Filter) (io.Wri
 		}
 	}
 
-	err = w.setXRef(ref, &xRefEntry{Pos: w.w.pos, Generation: ref.Generation()})
-	if err != nil {
-		return nil, fmt.Errorf("Writer.OpenStream: %w", err)
-	}
-	w.w.ref = ref
-
 	// Copy dict so that we don't modify the caller's dict, and inline any
 	// indirect /Filter or /DecodeParms entries.  Inlining serves two
 	// purposes: it gives appendFilter direct Name/Array values to extend
@@ -797,6 +791,29 @@ func (w *Writer) OpenStream(ref Reference, dict Dict, filters ...Filter) (io.Wri
 		}
 		streamDict[key] = inlined
 	}
+
+	// The reader refuses a chain longer than maxFilterChainLength, so the
+	// filters given here must not extend the chain beyond that: the stream
+	// could not be read back.  A chain which is only declared in dict is
+	// written as it is.  The check comes before setXRef so that a refused
+	// call leaves no xref entry behind.
+	numFilters := len(filters)
+	switch f := streamDict["Filter"].(type) {
+	case Name:
+		numFilters++
+	case Array:
+		numFilters += len(f)
+	}
+	if len(filters) > 0 && numFilters > maxFilterChainLength {
+		return nil, fmt.Errorf("Writer.OpenStream: filter chain length %d exceeds limit %d",
+			numFilters, maxFilterChainLength)
+	}
+
+	err = w.setXRef(ref, &xRefEntry{Pos: w.w.pos, Generation: ref.Generation()})
+	if err != nil {
+		return nil, fmt.Errorf("Writer.OpenStream: %w", err)
+	}
+	w.w.ref = ref
 
 	// A caller-supplied /Length must be a value we can check against the data
 	// once it has been written.  A [Placeholder] is rejected along with every
